@@ -75,7 +75,10 @@ fn box6(b: &Aabb) -> [u64; 6] { [canon(b.mins.x), canon(b.mins.y), canon(b.mins.
 #[derive(Default)]
 struct Shadow { topo: Vec<[u32; 7]>, boxes: Vec<[u64; 24]>, prox: Vec<[u32; 3]>, root: Option<[u64; 6]> }
 
-fn dump(q: &Qbvh<u32>, sh: &mut Shadow, op: &str, ret: usize, out: &mut String) {
+fn dump(q: &Qbvh<u32>, sh: &mut Shadow, op: &str, ret: usize, out: &mut String) { dump_x(q, sh, op, ret, "", out) }
+
+/// `extra`: the `K <id> <box>` items of a build that cut leaves (the user's record of the pieces, in callback order)
+fn dump_x(q: &Qbvh<u32>, sh: &mut Shadow, op: &str, ret: usize, extra: &str, out: &mut String) {
     let nodes = q.raw_nodes();
     let prox = q.raw_proxies();
     let (dirty, free) = q.verif_internals();
@@ -110,6 +113,7 @@ fn dump(q: &Qbvh<u32>, sh: &mut Shadow, op: &str, ret: usize, out: &mut String) 
             sh.prox[i] = t;
         }
     }
+    out.push_str(extra);
     let _ = write!(out, " D {}", dirty.len());
     for d in dirty { let _ = write!(out, " {}", d); }
     let _ = write!(out, " F {}", free.len());
@@ -133,8 +137,10 @@ pub fn replay_cur(a: &mut Args, with_dump: bool) -> (Option<Qbvh<u32>>, Vec<Aabb
     for _ in 0..nops {
         let op = a.tok().to_string();
         let mut ret = 0usize;
+        let mut extra = String::new();
         let r = catch_unwind(AssertUnwindSafe(|| {
             match op.as_str() {
+                "S" | "N" => { extra = bld::build_with_splitter(&op, a, &mut q, &mut cur); }
                 "I" => {
                     let id = a.u(); let b = rd_box(a);
                     if cur.len() <= id { cur.resize(id + 1, Aabb::new_invalid()); }
@@ -164,7 +170,7 @@ pub fn replay_cur(a: &mut Args, with_dump: bool) -> (Option<Qbvh<u32>>, Vec<Aabb
             }
         }));
         if r.is_err() { out.push_str("PANIC ;"); return (None, cur, out); }
-        if with_dump { dump(&q, &mut sh, &op, ret, &mut out); out.push(' '); }
+        if with_dump { dump_x(&q, &mut sh, &op, ret, &extra, &mut out); out.push(' '); }
     }
     (Some(q), cur, out.trim_end().to_string())
 }
@@ -172,7 +178,22 @@ pub fn replay_cur(a: &mut Args, with_dump: bool) -> (Option<Qbvh<u32>>, Vec<Aabb
 pub fn exec(func: &str, a: &mut Args) -> String {
     match func {
         // `hist`: model-compared; `histo`: same dump, oracle only (operations the model does not cover yet)
-        "hist" | "histo" => replay(a, true).1,
+        // these run on a watchdog thread (as `mixq` does): a hang of the real code — never seen on the unchanged tree; a
+        // corrupted tree can make `refit` / `rebalance` / a traversal loop for ever — is reported as `PANIC hang` instead of
+        // stalling the run
+        "hist" | "histo" | "topo" | "bquery" => {
+            let toks: String = a.t[a.i..].join(" ");
+            a.i = a.t.len();
+            let f = func.to_string();
+            let (tx, rx) = std::sync::mpsc::channel();
+            let th = std::thread::Builder::new().stack_size(64 << 20).spawn(move || {
+                let mut a = Args::new(&toks);
+                let r = match f.as_str() { "bquery" => bld::exec(&f, &mut a), "topo" => ext::exec(&f, &mut a), _ => replay(&mut a, true).1 };
+                let _ = tx.send(r);
+            });
+            if th.is_err() { return "PANIC spawn ;".into(); }
+            match rx.recv_timeout(std::time::Duration::from_secs(20)) { Ok(s) => s, Err(_) => "PANIC hang ;".into() }
+        }
         // simultaneous traversal of two independent trees (model-compared: histories of I/R/F only; `bvtto`: oracle only)
         "bvtt" | "bvtto" => {
             let (q1, _, _) = replay_cur(a, false);
@@ -346,6 +367,8 @@ pub fn exec(func: &str, a: &mut Args) -> String {
 
 #[path = "c08_ext.rs"]
 mod ext;
+#[path = "c08_build.rs"]
+mod bld;
 
 // ---------------------------------------------------------------- generators
 
@@ -668,6 +691,8 @@ pub fn gen(r: &mut Rng, thorough: bool) -> Vec<(String, String)> {
     for it in 0..ndeep { v.push(deep_chain_history(r, it % 2 == 0)); }
     // round fu3: check_topology / accessors / scaled / early exit (appended: the stream above is unchanged)
     v.extend(ext::gen(r, thorough));
+    // round fu5: every public build path (both splitters, cutting callback) and deep degenerate trees
+    v.extend(bld::gen(r, thorough));
     v
 }
 
